@@ -235,7 +235,7 @@ def run(chk):
     chk.count("wire-scan", n_rec, keys, samples=[{"variant": r["variant"], "drop": r["drop"], "labels": (r["labels"] or [])[:4]}
                                                  for r in sess[:2]])
     chk.count("epoch0-injection", len(inj), [(r["variant"], r["stage"], r["target"]) for r in inj],
-              samples=[{k: r[k] for k in ("variant", "stage", "target", "marker_hex", "marker_read", "effect")} for r in inj[:2]])
+              samples=[{k: r.get(k) for k in ("variant", "stage", "target", "marker_hex", "marker_read", "effect")} for r in inj[:2]])
     chk.count("empty-psk", len(psk0), [(r["mode"], r["done"]) for r in psk0],
               samples=[{k: r.get(k) for k in ("mode", "done", "err")} for r in psk0[:2]])
     chk.count("resumed-states", len(resumed), [(r["variant"], r["mode"], r["side"], bool(r.get("refused"))) for r in resumed],
